@@ -611,3 +611,21 @@ Proof. vm_compute. reflexivity. Qed.
 Require Blots.proofs.DisplayNumDischarge5.
 Example C01_log10_sane_pos_satisfiable : log10_sane_pos Blots.proofs.DisplayNumDischarge5.log10_floor_model.
 Proof. intros a k V _ D. exact (Blots.proofs.DisplayNumDischarge5.log10_floor_model_sane a k V D). Qed.
+
+(* ---- how valid_expr is tied to the parser: the ONE place where the text -> AST model (PegToItems.v) creates a number is
+        number_item (decimal tokens: Rust's FromStr = rn_decimal; 0x / 0b tokens: the repaired accumulator loop), and every
+        number it creates is a valid binary64; Pratt.v moves the INum item into ENum unchanged.  (A theorem "the AST of every
+        accepted text satisfies valid_expr" over the whole of PegToItems + Pratt is NOT proved; the ALL stream evaluates
+        valid_progb on every parsed program.) ---- *)
+Require Import Blots.NumText Blots.PrattTypes Blots.PegToItems Blots.proofs.AllValidLit.
+Theorem C01_parsed_number_literal_valid : forall tok x, number_item tok = INum x -> valid_num x.
+Proof. exact number_item_valid. Qed.
+Check C01_parsed_number_literal_valid : forall tok x, number_item tok = INum x -> valid_num x.
+Print Assumptions C01_parsed_number_literal_valid.
+(* the callback hypothesis `vcb` of the per-call theorems is inhabited: FunctionDef::call itself, at any depth *)
+Example C01_vcb_inhabited : vcb (AD true (binop_all oracle_trivial) (builtin_all_fit oracle_trivial) 3 []).
+Proof.
+  intros this f args st Ht Hf Ha.
+  exact (C01_call_no_panic_all oracle_trivial oracle_trivial_valid oracle_trivial_display_safe true 3 [] this f args st
+           eq_refl Ht Hf Ha).
+Qed.
